@@ -59,7 +59,7 @@ Qed.
 Lemma zcount_perm x a b : Permutation a b -> zcount x a = zcount x b.
 Proof. induction 1; rewrite ?zcount_cons; try lia. Qed.
 Lemma zcount_le_length x l : (zcount x l <= length l)%nat.
-Proof. unfold zcount. apply filter_length_le. Qed.
+Proof. induction l as [|y l IH]; [cbn; lia|]. rewrite zcount_cons. cbn [length]. destruct (Z.eqb x y); lia. Qed.
 
 Lemma zinsert_perm x l : Permutation (x :: l) (zinsert x l).
 Proof.
@@ -86,9 +86,10 @@ Lemma zcount_zreplace a c x l : a <> c ->
   zcount x (zreplace a c l) =
   if Z.eqb x c then (zcount c l + zcount a l)%nat else if Z.eqb x a then O else zcount x l.
 Proof.
-  intros Hac. induction l as [|y l IH]; cbn [zreplace map].
-  - destruct (Z.eqb x c), (Z.eqb x a); reflexivity.
-  - rewrite !zcount_cons, IH. fold (zreplace a c l).
+  intros Hac. induction l as [|y l IH].
+  - cbn. destruct (Z.eqb x c), (Z.eqb x a); reflexivity.
+  - change (zreplace a c (y :: l)) with ((if Z.eqb y a then c else y) :: zreplace a c l).
+    rewrite !zcount_cons, IH.
     destruct (Z.eqb_spec y a), (Z.eqb_spec x c), (Z.eqb_spec x a), (Z.eqb_spec x y),
       (Z.eqb_spec c y), (Z.eqb_spec a y); subst; try congruence; try lia.
 Qed.
@@ -132,6 +133,11 @@ Proof.
   destruct (Z.eqb_spec z x); [exfalso; apply H; left; exact e|].
   rewrite IH; [reflexivity|]. intros E; apply H; right; exact E.
 Qed.
+
+Lemma iter_S {A} n (f : A -> A) x : Nat.iter (S n) f x = f (Nat.iter n f x).
+Proof. reflexivity. Qed.
+Lemma iter_succ_r {A} n (f : A -> A) x : Nat.iter (S n) f x = Nat.iter n f (f x).
+Proof. induction n as [|n IH]; [reflexivity|]. cbn in *. f_equal. exact IH. Qed.
 
 (* ------------------------------------------------------------------ dictionaries *)
 Section DictLemmas.
@@ -277,7 +283,7 @@ Section DictLemmas.
         unfold upd_all. rewrite map_map. apply map_ext_in. intros [k2 v2] Hin. cbn [fst snd].
         rewrite zcount_cons. destruct (Z.eqb_spec k2 k).
         * subst. cbn [fst snd]. assert (v2 = v) by (apply In_dget in Hin; congruence). subst.
-          rewrite Z.eqb_refl. cbn [Nat.add]. rewrite Nat.iter_succ_r. reflexivity.
+          cbn [Nat.add]. rewrite iter_succ_r. reflexivity.
         * cbn [fst snd]. reflexivity.
       + rewrite dkeys_dset_in by (apply H; left; reflexivity). assumption.
       + intros k' Hk'. rewrite dkeys_dset_in by (apply H; left; reflexivity). apply H. right. assumption.
